@@ -42,6 +42,8 @@ if rc != 0:
     print('patch does not apply to /repo:', o[-300:])
 else:
     sh(f'git -C /repo apply {out}/patch.diff')
+    # evidence files are rewritten by every run: keep the ones from the unchanged tree and put them back afterwards
+    saved_ev = {f: open(os.path.join(VERIF, 'evidence', f)).read() for f in os.listdir(os.path.join(VERIF, 'evidence'))}
     try:
         props = [prop]
         if '--all' in sys.argv:
@@ -59,5 +61,7 @@ else:
         meta['detected_by_target_check'] = results[prop]['exit'] == 1
     finally:
         sh('git -C /repo checkout -- .')
+        for f, txt in saved_ev.items():
+            open(os.path.join(VERIF, 'evidence', f), 'w').write(txt)
 meta['ran'] = f'tools/seed_eval.py {prop} {wt} --name {name}' + (' --all' if '--all' in sys.argv else '')
 json.dump(meta, open(os.path.join(out, 'meta.json'), 'w'), indent=1)
